@@ -1094,14 +1094,28 @@ def i_CMOVcc(i, fmap):
 def i_SHRD(i, fmap):
     op1 = i.operands[0]
     op2 = fmap(i.operands[1])
-    op3 = fmap(i.operands[2])
+    op3 = fmap(i.operands[2] & 0x1F)
     fmap[eip] = fmap[eip] + i.length
+    a = fmap(op1)
     if not op3._is_cst:
         x = top(op1.size)
+        fmap[cf] = top(1)
+        fmap[of] = top(1)
     else:
         n = op3.value
+        if n == 0:
+            return  # nothing changes
         r = op1.size - n
-        x = (fmap(op1) >> n) | (op2 << r)
+        if r < 0:  # count > size: result and flags are undefined
+            x = top(op1.size)
+            fmap[cf] = top(1)
+        else:
+            x = (a >> n) | (op2 << r)
+            fmap[cf] = a.bit(n - 1)
+        if n == 1:
+            fmap[of] = x.bit(-1) ^ a.bit(-1)
+        else:
+            fmap[of] = top(1)
     fmap[op1] = x
     fmap[sf] = x.bit(-1)
     fmap[zf] = x == 0
@@ -1111,14 +1125,28 @@ def i_SHRD(i, fmap):
 def i_SHLD(i, fmap):
     op1 = i.operands[0]
     op2 = fmap(i.operands[1])
-    op3 = fmap(i.operands[2])
+    op3 = fmap(i.operands[2] & 0x1F)
     fmap[eip] = fmap[eip] + i.length
+    a = fmap(op1)
     if not op3._is_cst:
         x = top(op1.size)
+        fmap[cf] = top(1)
+        fmap[of] = top(1)
     else:
         n = op3.value
+        if n == 0:
+            return  # nothing changes
         r = op1.size - n
-        x = (fmap(op1) << n) | (op2 >> r)
+        if r < 0:  # count > size: result and flags are undefined
+            x = top(op1.size)
+            fmap[cf] = top(1)
+        else:
+            x = (a << n) | (op2 >> r)
+            fmap[cf] = a.bit(r)
+        if n == 1:
+            fmap[of] = x.bit(-1) ^ a.bit(-1)
+        else:
+            fmap[of] = top(1)
     fmap[op1] = x
     fmap[sf] = x.bit(-1)
     fmap[zf] = x == 0
